@@ -226,6 +226,7 @@ pub fn drive(family: &str, thorough: bool, seed_val: u64, r: &mut Runner) {
         "identity" => crate::drivers_rx::identity(&mut d),
         "probe" => crate::drivers_rx::probe(&mut d),
         "tour" => crate::drivers_rx::tour(&mut d),
+        "bus" => crate::drivers_rx::bus(&mut d),
         "headers" => crate::drivers_misc::headers(&mut d),
         "conv" => crate::drivers_misc::conv(&mut d),
         _ => {
